@@ -190,7 +190,7 @@ def arbitrary_item(eng, seq, label, vars, requires, ensures, extra_state=(), kna
     """ITEM RULE for a carrier that returns the lazy iterator `seq`: for an arbitrary position 0 <= k < n and an arbitrary
     state of the iterator's effects satisfying `requires` (the object invariant: every method of the class keeps it, so
     it holds whenever the consumer asks for the next item), run the REAL element for position k and prove `ensures`
-    (clauses over vars + {k, item}; old(...) = the state in which the item was requested; ncalls/callarg see the calls of
+    (clauses over vars + {k, got}; old(...) = the state in which the item was requested; ncalls/callarg see the calls of
     this one step).  Each clause becomes the obligation `<label>/<clause label>`."""
     from .engine import PathEnd
     from .values import snapshot
@@ -215,7 +215,7 @@ def arbitrary_item(eng, seq, label, vars, requires, ensures, extra_state=(), kna
             except ProgExc as e:
                 eng.prove(f"{label}/exc/unexpected-{getattr(e.cls, '__name__', e.cls)}", False, "exception", "requesting an item raised")
                 raise PathEnd()
-            v["item"] = item
+            v["got"] = item
             for lab, val in _clauses(eng, ensures, v, old, "post"):
                 eng.prove(f"{label}/{lab}", val, "postcondition", "item rule: arbitrary position, arbitrary state satisfying the object invariant")
         finally:
